@@ -111,3 +111,66 @@ Proof.
     rewrite Hw, (reencode_flags_zero f Hw). reflexivity.
   - reflexivity.
 Qed.
+
+(* ---------- C12, event cases: exactly the own kind accepts the encoding ---------- *)
+Require Import RP.Lemmas.EventsExact.
+Lemma kind_eqb_eq a b : kind_eqb a b = true <-> a = b.
+Proof. unfold kind_eqb. split; [intros H; apply code_inj; lia|intros ->; apply N.eqb_refl]. Qed.
+
+Lemma acc_flag_encode e k : wf_event e = true -> acc_flag (decode k (encode e)) = if kind_eqb k (kind_of e) then 1%N else 0%N.
+Proof.
+  intros Hw. destruct (kind_eqb k (kind_of e)) eqn:E.
+  - apply kind_eqb_eq in E. subst k. destruct (roundtrip e Hw) as [-> _]. reflexivity.
+  - assert (Hne: k <> kind_of e) by (intros ->; rewrite kind_eqb_refl in E; discriminate).
+    destruct (cross_rejected e k Hw Hne) as [r ->]. reflexivity.
+Qed.
+
+Lemma no_other_accepts ke : forall l,
+  existsb (fun kf => negb (kind_eqb (fst kf) ke) && (snd kf =? 1)) (combine l (map (fun k => if kind_eqb k ke then 1%N else 0%N) l)) = false.
+Proof.
+  induction l as [|k t IH]; [reflexivity|]. cbn [map combine existsb fst snd]. rewrite IH.
+  destruct (kind_eqb k ke); reflexivity.
+Qed.
+
+Theorem ok_C12_accepts_model_events e : wf_event e = true -> ok_C12 (1 :: event_fields e) (run_AMB (1 :: event_fields e)) = [].
+Proof.
+  intros Hw. unfold run_AMB. rewrite event_of_fields.
+  assert (Hobs: map (fun k => acc_flag (decode k (encode e))) all_kinds = map (fun k => if kind_eqb k (kind_of e) then 1%N else 0%N) all_kinds).
+  { apply map_ext. intros k. apply acc_flag_encode. exact Hw. }
+  rewrite Hobs. unfold ok_C12. rewrite map_length. cbn [all_kinds length Nat.eqb negb].
+  assert (Hc: (1 <? count_ones (map (fun k => if kind_eqb k (kind_of e) then 1%N else 0%N) all_kinds))%nat = false) by (destruct (kind_of e); reflexivity).
+  rewrite Hc. rewrite event_of_fields. fold all_kinds. rewrite no_other_accepts. reflexivity.
+Qed.
+
+(* ---------- C12, packet cases: for ANY packet the model's sixteen flags contain at most one acceptance ---------- *)
+Lemma count_ones_zero {A} (f: A -> N) l : (forall x, In x l -> f x <> 1) -> count_ones (map f l) = 0%nat.
+Proof.
+  unfold count_ones. induction l as [|x t IH]; intros H; [reflexivity|]. cbn [map filter].
+  destruct (f x =? 1) eqn:E; [apply N.eqb_eq in E; exfalso; apply (H x); [left; reflexivity|exact E]|].
+  apply IH. intros y Hy. apply H. right. exact Hy.
+Qed.
+Lemma count_ones_unique {A} (f: A -> N) l : NoDup l -> (forall x y, f x = 1 -> f y = 1 -> x = y) -> (count_ones (map f l) <= 1)%nat.
+Proof.
+  intros Hnd Hu. induction Hnd as [|x t Hnin Hnd IH]; [unfold count_ones; cbn; lia|].
+  unfold count_ones in *. cbn [map filter]. destruct (f x =? 1) eqn:E; [|exact IH].
+  apply N.eqb_eq in E. cbn [length].
+  assert (Hz: count_ones (map f t) = 0%nat).
+  { apply count_ones_zero. intros y Hy Hfy. apply Hnin. rewrite (Hu x y E Hfy). exact Hy. }
+  unfold count_ones in Hz. rewrite Hz. lia.
+Qed.
+Lemma all_kinds_nodup : NoDup all_kinds.
+Proof.
+  apply (NoDup_map_inv code). unfold all_kinds. cbn [map code].
+  repeat (constructor; [cbn [In]; intros H; repeat (destruct H as [H|H]; [discriminate H|]); exact H|]). constructor.
+Qed.
+Theorem ok_C12_accepts_model_packets p : ok_C12 (0 :: show_packet p) (run_AMB (0 :: show_packet p)) = [].
+Proof.
+  unfold run_AMB. rewrite <- (app_nil_r (show_packet p)), parse_show_packet. unfold ok_C12. rewrite map_length.
+  cbn [all_kinds length Nat.eqb negb]. fold all_kinds.
+  assert (Hc: (count_ones (map (fun k => acc_flag (decode k p)) all_kinds) <= 1)%nat).
+  { apply count_ones_unique; [exact all_kinds_nodup|]. intros x y Hx Hy.
+    destruct (decode x p) as [ex| | |] eqn:Ex; try discriminate Hx.
+    destruct (decode y p) as [ey| | |] eqn:Ey; try discriminate Hy.
+    exact (unique_kind x y p ex ey Ex Ey). }
+  destruct (Nat.ltb_spec 1 (count_ones (map (fun k => acc_flag (decode k p)) all_kinds))); [lia|reflexivity].
+Qed.
